@@ -499,7 +499,7 @@ func genValue(t *rapid.T, label string) string {
 // literals of patterns are byte strings too: the trie is built bytewise, so non-ASCII literals are ordinary patterns
 // (only the router's own reserved bytes and '/' are excluded from literals). Valid UTF-8 only, so that a case
 // survives JSON; looked-up paths carry arbitrary bytes anyway.
-var exoticLits = []string{"é", "caf\u00e9", "日本", "ｃ", "ü.", "\u00ff", "\u00fd", "C", "c"}
+var exoticLits = []string{"é", "caf\u00e9", "日本", "ｃ", "ü.", "\u00ff", "\u00fd", "C", "c", "menú", "crêpes", "£", "À"} // the last four hold the bytes 0xBA 0xAA 0xA3 0x80 (r9)
 
 func genLit(t *rapid.T, vocab []string) string {
 	if rapid.IntRange(0, 7).Draw(t, "exotic") == 0 {
@@ -646,7 +646,26 @@ func GenSmall(t *rapid.T) Case {
 			pats = append(pats, root)
 		}
 	}
+	var ladderPath string
+	if rapid.IntRange(0, 7).Draw(t, "ladder") == 0 {
+		// a ladder: a catch-all at the root and a parameter at every step of one literal chain; a path that walks the whole
+		// chain and then leaves it is matched by the catch-all alone, after every deeper candidate has failed (r9)
+		depth := rapid.IntRange(4, 8).Draw(t, "ladder-depth")
+		chain := []string{"api", "v1", "users", "me", "cfg", "ui", "x", "y"}[:depth]
+		pats = []Pat{{{K: "*", Name: "catchall"}}}
+		for d := 1; d <= depth; d++ {
+			var p Pat
+			for _, l := range chain[:d] {
+				p = append(p, Seg{K: "l", Lit: l})
+			}
+			pats = append(pats, append(p, Seg{K: ":", Name: fmt.Sprintf("p%d", d)}))
+		}
+		ladderPath = "/" + strings.Join(chain, "/") + "/theme/dark"
+	}
 	c := Case{Pats: pats}
+	if ladderPath != "" {
+		c.Paths = append(c.Paths, kit.BStr(ladderPath))
+	}
 	np := rapid.IntRange(1, 4).Draw(t, "npaths")
 	for i := 0; i < np; i++ {
 		c.Paths = append(c.Paths, kit.BStr(genPath(t, pats, nil)))
@@ -677,6 +696,22 @@ func GenLarge(t *rapid.T) Case {
 	// a skewed size: mostly hundreds, sometimes thousands
 	want := rapid.IntRange(50, max).Draw(t, "npat")
 	pats := genSet(t, want, largeVocab, 5)
+	if rapid.IntRange(0, 5).Draw(t, "long-prefix-family") == 0 {
+		// many parameterised routes under long, pairwise different first segments: the trie grows beyond 65535 cells (r9)
+		n := rapid.SampledFrom([]int{3000, 4000}).Draw(t, "family-size")
+		seen := map[string]bool{}
+		for _, p := range pats {
+			seen[p.norm()] = true
+		}
+		for i := 0; i < n; i++ {
+			lit := fmt.Sprintf("r%05d-%s", i, strings.Repeat(string(rune('a'+i%26)), 18))
+			p := Pat{{K: "l", Lit: lit}, {K: ":", Name: "id"}}
+			if !seen[p.norm()] {
+				seen[p.norm()] = true
+				pats = append(pats, p)
+			}
+		}
+	}
 	c := Case{Pats: pats, Large: true}
 	np := rapid.IntRange(10, 40).Draw(t, "npaths")
 	for i := 0; i < np; i++ {
